@@ -98,7 +98,15 @@ def object_sequence(p, gens, n, rnd):
     from ..oracle import conn as oconn
     s = stab(gens, n, rnd)
     other = stab(present(gens, n, rnd), n, rnd)
-    steps = [lambda: s.expand(), lambda: determine_lc_class(s).id(), lambda: s.expand(), lambda: s.is_qubit_entangled(rnd.randrange(n)),
+    # "twins" that share their raw bytes with this object's matrices under another shape / orientation are validated first
+    # (a result remembered under a key that forgets shape or orientation would be picked up by the predicates below)
+    from htstabilizer.stabilizer import Stabilizer
+    R, S, _ph = ws.matrices(present(gens, n, rnd), n)
+    gen_rows = np.concatenate([R.T, S.T], axis=1)                      # n x 2n, one generator per row
+    for twin in (gen_rows.reshape(2 * n, n), np.concatenate([R, S]).T.copy().reshape(2 * n, n), np.concatenate([R.T, S.T])):
+        call(lambda: Stabilizer((np.ascontiguousarray(twin[:n]), np.ascontiguousarray(twin[n:]))).validate())
+    other_same = Stabilizer((R.copy(), S.copy()))
+    steps = [lambda: s.expand(), lambda: other_same.is_equivalent_mod_phase(s), lambda: s.is_equivalent_mod_phase(other_same),lambda: s.expand(), lambda: determine_lc_class(s).id(), lambda: s.expand(), lambda: s.is_qubit_entangled(rnd.randrange(n)),
              lambda: repr(s), lambda: get_readout_circuit(s, rnd.choice(oconn.configs_for(n))), lambda: s.expand(),
              lambda: s.is_equivalent_mod_phase(other), lambda: get_preparation_circuit(s, rnd.choice(oconn.configs_for(n))),
              lambda: s.to_list(), lambda: s.expand(), lambda: other.is_equivalent_mod_phase(s), lambda: s.is_qubit_entangled(rnd.randrange(n))]
